@@ -8,7 +8,7 @@ import shutil as _sh
 use_formula_memo()
 
 OPS = ["S.new_pandas(p)", "T.q = value of S.p", "S.p = 5", "del S.p", "update_pandas(value, new)", "T.add_bases(S)", "del T.q", "model.new_pandas(mp)",
-       "S.new_pandas on a clashing name", "second spec on the same file", "S.p2 = value of S.p", "T.remove_bases(S)", "write + read"]
+       "S.new_pandas on a clashing name", "second spec on the same file", "S.p2 = value of S.p", "T.remove_bases(S)", "write + read", "del model.T (space holding a reference to the value)", "S.p = the value it already has", "update_pandas(value) in place (same object)"]
 FILES = ["data/a.csv", "data/b.csv"]
 
 
@@ -79,7 +79,9 @@ def history(o1: int, o2: int, o3: int, o4: int, f1: int) -> bool:
             if o < 0:
                 break
             vid_p = st.bind.get(("S", "p"))
-            if o in (1, 4, 10) and vid_p is None:
+            if o in (1, 5, 6, 11) and "T" not in m.spaces:
+                return True
+            if o in (1, 4, 10, 14, 15) and vid_p is None:
                 return True            # operation needs the value bound to S.p
             label(OPS[o] + (" file=%s" % FILES[f1] if o in (0, 7, 9) else ""))
             with notrace():
@@ -148,6 +150,20 @@ def history(o1: int, o2: int, o3: int, o4: int, f1: int) -> bool:
                 r = call(T.remove_bases, S)
                 if r[0] == "ok":
                     inherits = False
+            elif o == 13:
+                if "T" not in m.spaces:
+                    return True
+                r = call(delattr, m, "T")
+                if r[0] == "ok":
+                    st.bind.pop(("T", "q"), None)
+                    inherits = False
+            elif o == 14:
+                r = call(setattr, S, "p", st.vals[vid_p][0])
+            elif o == 15:
+                with notrace():
+                    cur = st.vals[vid_p][0]
+                    cur.loc[0, "c"] = 999          # the frame is mutated in place, then announced
+                r = call(m.update_pandas, cur)
             elif o == 12:
                 with notrace():
                     before = {k: st.vals[v][0] for k, v in st.bind.items()}
@@ -186,11 +202,11 @@ def history(o1: int, o2: int, o3: int, o4: int, f1: int) -> bool:
 NO = len(OPS)
 QUERIES = [
     Query("history", history, pre=["-1 <= o1 < %d" % NO, "-1 <= o2 < %d" % NO, "-1 <= o3 < %d" % NO, "-1 <= o4 < %d" % NO, "0 <= f1 <= 1"],
-          partitions=lambda tier, seed: ([dict(o1=0, f1=0, o2=a, o3=[-1, NO - 2], o4=-1) for a in range(NO - 1)] + [dict(o1=0, f1=0, o2=a, o3=b, o4=12) for (a, b) in ((1, 3), (4, 10), (5, 2), (10, 4), (7, 9))] +
+          partitions=lambda tier, seed: ([dict(o1=0, f1=0, o2=a, o3=[-1, NO - 1], o4=-1) for a in range(NO) if a != 12] + [dict(o1=0, f1=0, o2=a, o3=b, o4=12) for (a, b) in ((1, 3), (4, 10), (5, 2), (10, 4), (7, 9))] +
                                          [dict(o1=a, o2=0, o3=[0, 4], o4=-1, f1=1) for a in (7, 8, 5)]) if tier == "quick" else
           [dict(o1=0, o2=a, o3=b, f1=f) for a in range(NO) for b in range(NO) for f in (0, 1)],
           natives=[dict(o1=a, o2=b, o3=c, o4=d, f1=f) for (a, b, c, d, f) in
-                   ((0, 1, 3, 12, 0), (0, 4, 10, 12, 1), (0, 5, 2, -1, 0), (0, 10, 3, 6, 0), (7, 0, 9, 12, 0), (0, 8, 9, 3, 1), (0, 1, 6, 3, 0), (0, 5, 11, 12, 0), (0, 2, 0, 12, 1))],
+                   ((0, 1, 3, 12, 0), (0, 4, 10, 12, 1), (0, 5, 2, -1, 0), (0, 10, 3, 6, 0), (7, 0, 9, 12, 0), (0, 8, 9, 3, 1), (0, 1, 6, 3, 0), (0, 5, 11, 12, 0), (0, 2, 0, 12, 1), (0, 1, 13, 3, 0), (0, 14, 3, -1, 0), (0, 1, 3, 13, 0), (0, 14, 12, -1, 1), (0, 15, 3, -1, 0), (0, 1, 15, 12, 0), (0, 15, 12, -1, 1))],
           bounds=lambda tier: {"operations": OPS, "history_length": "3 after the first new_pandas (quick) / 3 free (thorough); selected 4-step histories ending in write+read",
                                "holders": ["S", "T", "model"], "files": FILES},
           outside=["new_module / new_excel_range specs", "several models sharing absolute paths", "histories longer than 4"]),
